@@ -31,3 +31,46 @@ def clone(a):
     on it for its own bookkeeping (snapshots, scratch objects)."""
     import copy
     return copy.deepcopy(a)
+
+
+_WORKER_DIR = None
+
+
+def worker_dir():
+    """one scratch directory per worker process, removed at exit. Files in it are overwritten from case to case ON PURPOSE:
+    a path that was read before and now holds other content is what a reader that remembers paths gets wrong."""
+    global _WORKER_DIR
+    import atexit
+    import os
+    import shutil
+    import tempfile
+    if _WORKER_DIR is None or not os.path.isdir(_WORKER_DIR):
+        _WORKER_DIR = tempfile.mkdtemp(prefix="vmon-worker-")
+        atexit.register(shutil.rmtree, _WORKER_DIR, True)
+    return _WORKER_DIR
+
+
+_PRIMED = set()
+_DECOY_CML = ('<molecule>\n <atomArray>\n  <atom id="a1" elementType="Xe" x3="0.5" y3="0.25" z3="0.125"/>\n </atomArray>\n</molecule>\n')
+
+
+def prime_path(p):
+    """make sure `p` has been written and read once with OTHER content (a one-atom decoy) in this process, so that a replay
+    of a single case also meets 'a path read before, now holding other content'"""
+    if p in _PRIMED:
+        return
+    _PRIMED.add(p)
+    import contextlib
+    import io
+    import numpy as np_
+    from mofun import Atoms
+    try:
+        with contextlib.redirect_stdout(io.StringIO()):
+            if p.endswith(".cml"):
+                with open(p, "w") as f:
+                    f.write(_DECOY_CML)
+            else:
+                Atoms(elements=["Xe"], positions=np_.array([[0.5, 0.25, 0.125]]), cell=np_.diag([5.0, 6.0, 7.0])).save(p)
+            Atoms.load(p)
+    except Exception:
+        pass       # the decoy is only a preparation; whatever is wrong with writing/reading shows in the judged calls
